@@ -134,6 +134,16 @@ def check_split(case):
         except Exception as e:
             tree_multi = 'EXC %s: %s' % (type(e).__name__, str(e)[:150])
         tree_one = gen.matlab('\n'.join(texts))
+        if len(texts) > 1 and not isinstance(tree_multi, str):
+            # the same files under equal base names in different directories
+            try:
+                tree_dirs = gen.matlab(None, files=texts, names=['geometry/types.i', 'linear/solver.i', 'linear/types.i'][:len(texts)])
+            except Exception as e:
+                tree_dirs = 'EXC %s: %s' % (type(e).__name__, str(e)[:150])
+            if tree_dirs != tree_one:
+                add('C16|matlab-files|same-base-name-in-two-directories', 'wrapping geometry/types.i, linear/solver.i, linear/types.i differs from '
+                    'wrapping the single file: %s' % (tree_dirs if isinstance(tree_dirs, str) else
+                                                     [k for k in sorted(set(tree_dirs) | set(tree_one)) if tree_dirs.get(k) != tree_one.get(k)][:6]))
         if tree_multi != tree_one:
             if isinstance(tree_multi, str):
                 add('C16|matlab-files|rejected|%s' % ending, 'wrapping the file list fails (%s) while the single file works' % tree_multi)
@@ -254,6 +264,7 @@ def check_script(case):
         mod = [D.cls('Gl', [D.ctor('Gl')]),
                D.ns('gt', [D.cls('Aa', [D.ctor('Aa'), D.method(single(T('void')), 'serialize', [], 1), D.method(single(I), 'fa', [], 1)]),
                            D.cls('AaPair', [D.ctor('AaPair')]),
+                           D.cls('Tw', [D.ctor('Tw')], tpl=[D.tparam('A', [I]), D.tparam('B', [T('double'), T('bool')])]),
                            D.ns('inner', [D.cls('Bb', [D.ctor('Bb')]), D.func(single(I), 'fi', [])]),
                            D.func(single(I), 'fg', [arg(I, 'a', '1')])]),
                D.func(single(I), 'fglobal', [])]
@@ -353,6 +364,9 @@ def run(ctx):
             for ext in ('.i', '.h'):
                 for st in ([stems[:3], [stems[0], stems[2], stems[3]]] if ctx.thorough or ext == '.i' else [stems[:3]]):
                     cases.append({'mode': 'split', 'groups': groups, 'ending': ending, 'stems': st, 'ext': ext})
+    for ending in ('none', 'line-comment', 'newline', 'block-comment', 'open-ended-comment-text'):
+        for groups in ([[0, 1], [], [2, 3]], [[0, 1, 2, 3], []], [[0], [1, 2, 3], []]):
+            cases.append({'mode': 'split', 'groups': groups, 'ending': ending, 'stems': stems[:3], 'ext': '.i'})
     res = ctx.map(check_split, cases)
     dcases = [{'mode': 'matlab-dep', 'groups': g, 'ending': e} for g in splits(len(dep_decls()), 3) for e in ENDINGS]
     resd = ctx.map(check_matlab_dep, dcases)
@@ -361,7 +375,8 @@ def run(ctx):
     for script in ('pybind', 'matlab'):
         for top in ([], ['gt'], ['gt', 'inner']):
             for ignk, ign in (('absent', None), ('empty', []), ('one', ['gt::Aa']), ('two', ['gt::inner::Bb', 'Gl']),
-                              ('superstring-of-another-class', ['gt::AaPair'])):
+                              ('superstring-of-another-class', ['gt::AaPair']),
+                              ('template-instantiation-with-two-arguments', ['gt::Tw<int, double>', 'gt::TwIntBool'])):
                 for sub in ((False, True) if script == 'pybind' else (False,)):
                     for ser in (False, True):
                         scases.append({'mode': 'script', 'script': script, 'top': top, 'ignk': ignk, 'ignore': ign, 'sub': sub, 'ser': ser})
